@@ -7,5 +7,5 @@ CONSTANT MCMaxConns
 MCConfigs == [maxConns : 1..MCMaxConns, wait : BOOLEAN, lifo : BOOLEAN]
 MCConns == 1..MCMaxConns
 \* with environment actions the idle connections eventually expire and the pool drains completely
-DrainedMC == <>[](Quiescent /\ (AllowEnv => (idle = <<>> /\ count = 0 /\ open = {})))
+DrainedMC == <>[](Finished /\ Quiescent /\ (AllowEnv => (idle = <<>> /\ count = 0 /\ open = {})))
 =============================================================================
